@@ -1,0 +1,17 @@
+//go:build verif
+
+// Verification shim for property C14, part 3 (add-only, build tag "verif").
+
+package gocql
+
+// VerifC14PoolSize is the number of connections in the session's pool for the host with that id
+// (-1: no pool), so that the harness can wait for a reconnection before it goes on.
+func VerifC14PoolSize(s *Session, hostID string) int {
+	s.pool.mu.RLock()
+	p := s.pool.hostConnPools[hostID]
+	s.pool.mu.RUnlock()
+	if p == nil {
+		return -1
+	}
+	return p.Size()
+}
